@@ -27,6 +27,14 @@ def oracle_for(res):
                 sk.violation(res, f"{c['name']}: search for an absent keyword returns identifiers",
                              f"{c['name']} ({c['profile']}): absent keyword {w.hex()} returned {len(r)} identifiers", sk.show_case(c, w))
             res.count("absent keywords searched")
+        sub = out.get("same_key_subset")
+        if sub:
+            r = sub["removed_result"]
+            if isinstance(r, tuple) or len(r) != 0:
+                sk.violation(res, f"{c['name']}: a keyword that is absent from a second index under the same key is not answered with the empty result",
+                             f"{c['name']} ({c['profile']}): EDBSetup(K, DB), then EDBSetup(K, DB without {sub['removed'].hex()}), search of that keyword: "
+                             + (f"{r[1]}: {r[2]}" if isinstance(r, tuple) else f"{len(r)} identifiers"),
+                             dict(sk.show_case(c, sub["removed"]), history="second index under the same key without this keyword"))
     return oracle
 
 
@@ -37,8 +45,8 @@ def correspond(ctx):
     for c in cases:                       # more absent keywords than the shared default
         c["absent"] = se.absent_keywords(ctx.rng, c["name"], c["cfg"], c["db"], n=ctx.pick(6, 0))
     sk.correspond(ctx, res, cases)
-    sk.direct(ctx, res, cases, oracle_for(res))
-    res.extra["schemes_with_theorem"] = ["PiBas", "PiPack"]
+    sk.direct(ctx, res, cases, oracle_for(res), history=True)
+    res.extra["schemes_with_theorem"] = ["PiBas", "PiPack", "SSE2"]
     res.extra["schemes_modelled"] = list(sc.MODELLED)
     res.rule = (f"per scheme {n_cfg} supported configurations x {len(se.PROFILES)} database profiles; absent keywords derived from stored "
                 "ones (last byte dropped, NUL / byte appended, first byte dropped, first bit flipped, first byte doubled) plus a random one; "
@@ -54,7 +62,7 @@ def search(ctx, broken, res0):
     cases = sk.gen_cases(ctx, se.NAMES, ctx.pick(12, 30), scale=3)
     for c in cases:
         c["absent"] = se.absent_keywords(ctx.rng, c["name"], c["cfg"], c["db"], n=0)
-    sk.direct(ctx, res, cases, oracle_for(res))
+    sk.direct(ctx, res, cases, oracle_for(res), history=True)
     return res
 
 
